@@ -1,6 +1,6 @@
 (** C03 — compiled evaluation implements the core-language semantics: property theorems only. *)
 From Coq Require Import ZArith List Bool Arith.
-From ChibiV Require Import C03.Defs C03.Model C03.Spec C03.Proofs C03.Simulation C03.SimCalls C03.SimBoxes C03.SimRest C03.SimClos C03.SimFull.
+From ChibiV Require Import C03.Defs C03.Model C03.Spec C03.Proofs C03.Simulation C03.SimCalls C03.SimBoxes C03.SimRest C03.SimClos C03.SimFull C03.SimProg C03.SimErr.
 Import ListNotations.
 
 (** distinct variables of one frame (parameters, rest, internal defines) never share a slot *)
@@ -187,48 +187,149 @@ Theorem compile_correct_partial_boxes : forall c svs B fp0 stk0 env,
 Proof. exact SimBoxes.compile_correct_boxes_fragment. Qed.
 Print Assumptions compile_correct_partial_boxes.
 
-(** ASSIGNMENTS, BOXES, INTERNAL DEFINES, CLOSURES AND CALLS TOGETHER (coq/C03/SimFull.v), fragment [fragA] over
-    fixed-arity lambdas: literals, global references, references to variables of the current frame (parameters and
-    internal defines) and to free variables in the current lambda's fv list, set! of such variables (boxed: they are in
-    their owner's sv list, [SV] = the program's table of assigned variables), if, begin, the inlined opcodes except eq?,
-    lambda expressions with internal defines and any fetchable fv list, applications in non-tail and tail position --
-    the language of named let, letrec, do loops, internal defines, counters.  Boxes are shared between frames and
+(** ASSIGNMENTS (TO LOCALS AND TO GLOBALS), BOXES, INTERNAL DEFINES, CLOSURES, CALLS AND REST PARAMETERS TOGETHER
+    (coq/C03/SimFull.v; round 3: the rest-parameter fragment and set! of globals are merged in), fragment [fragA]: literals (bare immediates and literal NODES alike: the code
+    pushes [lit_value]), global references, references to variables of the current frame (parameters, the rest
+    parameter, internal defines) and to free variables in the current lambda's fv list, set! of such variables (boxed:
+    they are in their owner's sv list, [SV] = the program's table of assigned variables), set! / define of GLOBALS
+    anywhere ([SetV x Global e]: at top level, inside procedure bodies, nested in expressions), if, begin, the inlined opcodes
+    except eq?, lambda expressions with an optional rest parameter (which may be assigned or captured), internal defines
+    and any fetchable fv list, applications in non-tail and tail position through all three argument protocols of
+    make_call (exact arity, rest list consed, UNUSED_REST) -- the language of named let, letrec, do loops, internal
+    defines, counters, variadic procedures.  The frame context records the LIVE rest [live_of id r body] ([] when the
+    compiler flags UNUSED_REST: the parameter then has no slot); [compile_correct_imperative_plain_fragment] below
+    shows that this bookkeeping excludes nothing (by theorem rest_unused_sound).  Boxes are shared between frames and
     closure vectors and mutated, so the simulation relation is indexed by a WORLD W = (heap, SPEC cells, partial
     injection location -> box): [vrelW] relates values, [WINV] says every box holds a value representing the content of
-    its location, [env_okA] relates the current frame / closure vector / globals, [wext] is world extension (only box
-    contents and boxed locations change, new cells are fresh).  Whenever the SPEC yields (v, st'), the code runs to the
-    instruction after it with v' pushed on the unchanged stack (or, in tail position after a TAIL-CALL, to the return
-    point of the current frame), in a world W' that extends W, has the cells of st', satisfies the invariant, and
-    relates v' to v.
-    MISSING for the full compile_correct: rest parameters and set! of globals are proved in separate fragments
-    (compile_correct_partial / _rest / _boxes) but not merged into this one; eq? on pairs; error outcomes; the driver
-    run_program over several top-level forms. *)
+    its location, [env_okA] relates the current frame / closure vector, [globrel SV W sg gl] says every SPEC global of
+    sg has a VM global in gl representing it (globals are looked up by name at run time on both sides), [wext] is world
+    extension (only box contents and boxed locations change, new cells are fresh).  Whenever the SPEC yields (v, st'),
+    the code runs to the instruction after it with v' pushed on the unchanged stack (or, in tail position after a
+    TAIL-CALL, to the return point of the current frame), in a world W' that extends W, has the cells of st',
+    satisfies the invariant, relates v' to v, and with VM globals gl' that represent the SPEC's globals of st' (they
+    differ from the initial ones when a global was assigned on the way, e.g. by a called writer procedure).
+    MISSING for the full compile_correct: eq? on pairs; error outcomes beyond the pure fragment
+    (compile_correct_pure_error below). *)
 Theorem compile_correct_partial_imperative : forall SV fuel e cur env st v st' tl svs s pre post W,
   fragA SV cur e = true ->
   eval fuel e env st = SVal v st' ->
   agrees SV svs ->
   code_of (self s) = pre ++ generate tl svs (lctxA cur) e ++ post -> ip s = length pre ->
   wh W = heap s -> wc W = cells st -> WINV SV W ->
-  env_okA SV cur env (sglobals st) W s ->
-  sglobals st' = sglobals st /\
-  exists W' v', wext W W' /\ wc W' = cells st' /\ WINV SV W' /\ vrelW SV W' v' v /\
+  env_okA SV cur env W s -> globrel SV W (sglobals st) (globals s) ->
+  exists W' v' gl', wext W W' /\ wc W' = cells st' /\ WINV SV W' /\ vrelW SV W' v' v /\
+    globrel SV W' (sglobals st') gl' /\
     ((exists n, nsteps n s = Some (mkst (v' :: stk s) (fp s) (self s)
-                                        (length pre + length (generate tl svs (lctxA cur) e)) (wh W') (globals s)))
+                                        (length pre + length (generate tl svs (lctxA cur) e)) (wh W') gl'))
      \/ (tl = true /\ forall j rip rself rfp, frame_info s = Some (j, rip, rself, rfp) -> j <= fp s ->
-           exists n, nsteps n s = Some (mkst (v' :: below (fp s - j) (stk s)) rfp rself rip (wh W') (globals s)))).
+           exists n, nsteps n s = Some (mkst (v' :: below (fp s - j) (stk s)) rfp rself rip (wh W') gl'))).
 Proof. exact SimFull.compile_correct_imperative_fragment. Qed.
 Print Assumptions compile_correct_partial_imperative.
 
 (** end to end for one top-level expression of [fragA]: the thunk runs to completion with a value representing the
-    SPEC's value, in a world that extends the initial one and satisfies the invariant *)
+    SPEC's value, in a world that extends the initial one and satisfies the invariant; the final VM globals represent
+    the SPEC's final globals *)
 Theorem compile_correct_partial_toplevel_expr_imperative : forall SV fuel e st v st' svs W gl,
   fragA SV None e = true ->
   eval fuel e [] st = SVal v st' ->
   agrees SV svs -> wc W = cells st -> WINV SV W ->
-  (forall g w, glob_lookup g (sglobals st) = Some w -> exists v0, assoc_nat g gl = Some v0 /\ vrelW SV W v0 w) ->
+  globrel SV W (sglobals st) gl ->
   exists s0 n v' s' W',
     init_state (generate true svs None e ++ [IRet]) (wh W) gl = Next s0 /\
     run n s0 = Done v' s' /\ wext W W' /\ heap s' = wh W' /\ wc W' = cells st' /\ WINV SV W' /\
-    vrelW SV W' v' v /\ globals s' = gl.
+    vrelW SV W' v' v /\ globrel SV W' (sglobals st') (globals s').
 Proof. exact SimFull.compile_correct_toplevel_expr_imperative. Qed.
 Print Assumptions compile_correct_partial_toplevel_expr_imperative.
+
+(** the plain reading of the fragment ([fragP]: the rest parameter is always resolvable) is contained in [fragA] for
+    annotated terms: the live-rest bookkeeping excludes nothing *)
+Theorem compile_correct_imperative_plain_fragment : forall SV e,
+  fragP SV None e = true -> annot_ok e = true -> fragA SV None e = true.
+Proof. exact SimFull.fragP_fragA. Qed.
+Print Assumptions compile_correct_imperative_plain_fragment.
+
+(** WHOLE PROGRAMS (C03/SimProg.v): a list of top-level forms, each compiled by [compile_toplevel] and run by
+    [run_program] (heap and globals threaded), against [eval_program] (store threaded), with top-level define /
+    re-define / set! of globals between the forms and inside procedure bodies ([SetV x Global e] is an expression of
+    the fragment).  [form_ok SV e] = the form is annotated ([annotate e = e]), well-scoped ([wf_program e]) and an
+    expression of the imperative fragment ([formA SV e] = [fragA SV None e]).  Partial: whatever [fragA] excludes
+    (eq?, error outcomes). *)
+Theorem compile_correct_partial_toplevel_form : forall SV fuel e st v st' W gl,
+  annotate e = e -> wf_program e = true -> formA SV e = true ->
+  eval fuel e [] st = SVal v st' ->
+  wc W = cells st -> WINV SV W -> globrel SV W (sglobals st) gl ->
+  exists s0 n v' s' W',
+    init_state (compile_toplevel e) (wh W) gl = Next s0 /\
+    run n s0 = Done v' s' /\ wext W W' /\ heap s' = wh W' /\ wc W' = cells st' /\ WINV SV W' /\
+    vrelW SV W' v' v /\ globrel SV W' (sglobals st') (globals s').
+Proof. exact SimProg.compile_correct_toplevel_form. Qed.
+Print Assumptions compile_correct_partial_toplevel_form.
+
+Theorem compile_correct_partial_program : forall SV forms fuel st v st' W gl,
+  Forall (form_ok SV) forms ->
+  eval_program fuel forms st = SVal v st' ->
+  wc W = cells st -> WINV SV W ->
+  (forall g w, glob_lookup g (sglobals st) = Some w -> exists v0, assoc_nat g gl = Some v0 /\ vrelW SV W v0 w) ->
+  exists n v' s' W',
+    run_program n forms (wh W) gl = Done v' s' /\
+    wext W W' /\ heap s' = wh W' /\ wc W' = cells st' /\ WINV SV W' /\
+    vrelW SV W' v' v /\
+    (forall g w, glob_lookup g (sglobals st') = Some w ->
+       exists v0, assoc_nat g (globals s') = Some v0 /\ vrelW SV W' v0 w).
+Proof. exact SimProg.compile_correct_program_partial. Qed.
+Print Assumptions compile_correct_partial_program.
+
+(** from the empty heap / store / globals; a program whose SPEC value is an atom runs to exactly that atom *)
+Theorem compile_correct_partial_program_atom : forall SV forms fuel l st',
+  Forall (form_ok SV) forms ->
+  eval_program fuel forms (mkstore [] []) = SVal (SLit l) st' ->
+  exists n s', run_program n forms [] [] = Done (VLit l) s'.
+Proof. exact SimProg.compile_correct_program_partial_atom. Qed.
+Print Assumptions compile_correct_partial_program_atom.
+
+(** the code of a well-scoped form does not depend on the sv table it is generated with (every lambda installs its
+    own sv on the way down), so [compile_toplevel]'s empty table is as good as the program's *)
+Theorem generate_independent_of_initial_sv : forall e sc tl svs svs2 cur,
+  wf sc e = true -> sv_eq_on sc svs svs2 -> generate tl svs cur e = generate tl svs2 cur e.
+Proof. exact SimProg.generate_sv_indep. Qed.
+Print Assumptions generate_independent_of_initial_sv.
+
+(** fuel monotonicity of the model VM *)
+Theorem run_program_fuel_monotone : forall forms n k h g v s',
+  run_program n forms h g = Done v s' -> run_program (n + k) forms h g = Done v s'.
+Proof. exact SimProg.run_program_mono. Qed.
+Print Assumptions run_program_fuel_monotone.
+
+(** ERROR OUTCOMES of the pure call-free fragment (coq/C03/SimErr.v): a primitive type error (car / cdr of a non-pair,
+    arithmetic or comparison on a non-number) or an unbound global in the SPEC makes the VM reach a failing state of the
+    SAME error class, for every continuation [post]; needs [globals_complete] (the VM binds no global the SPEC does not) *)
+Theorem compile_correct_pure_error : forall c svs fuel e env st er tl s pre post,
+  Simulation.pure (l_id c) (svs (l_id c)) e = true ->
+  eval fuel e env st = SErr er -> er <> EStuck ->
+  code_of (self s) = pre ++ generate tl svs (Some c) e ++ post -> ip s = length pre ->
+  Simulation.env_ok c svs env st s -> SimErr.globals_complete st s ->
+  exists n s1, Simulation.nsteps n s = Some s1 /\ step s1 = Fail er.
+Proof. exact SimErr.compile_correct_pure_error. Qed.
+Print Assumptions compile_correct_pure_error.
+
+(** totality: with fuel >= nesting depth and bound frame variables the SPEC answers a value (store unchanged) or a type /
+    unbound-global error on the fragment -- never out of fuel, never stuck *)
+Theorem compile_correct_pure_total : forall id sv fuel e env st,
+  Simulation.pure id sv e = true -> SimErr.depth e <= fuel -> SimErr.binds id env st e ->
+  (exists v, eval fuel e env st = SVal v st)
+  \/ (exists er, eval fuel e env st = SErr er /\ (er = EType \/ er = EUndefGlobal)).
+Proof. exact SimErr.compile_correct_pure_total. Qed.
+Print Assumptions compile_correct_pure_total.
+
+(** the equivalence for a complete run (the code is followed by DONE): SPEC error <=> the VM run ends in that error;
+    SPEC value <=> the VM run ends with a related value.  (For an arbitrary continuation the <= direction is false:
+    SimErr.CounterExample.) *)
+Theorem compile_correct_pure_run_iff : forall c svs fuel e env st tl s pre post,
+  Simulation.pure (l_id c) (svs (l_id c)) e = true ->
+  SimErr.depth e <= fuel -> SimErr.binds (l_id c) env st e ->
+  code_of (self s) = pre ++ generate tl svs (Some c) e ++ IDone :: post -> ip s = length pre ->
+  Simulation.env_ok c svs env st s -> SimErr.globals_complete st s ->
+  (forall er, eval fuel e env st = SErr er <-> exists k, run k s = Error er)
+  /\ (forall v, eval fuel e env st = SVal v st <-> exists k v' sf, run k s = Done v' sf /\ Simulation.vrel (heap sf) v' v).
+Proof. exact SimErr.compile_correct_pure_run_iff. Qed.
+Print Assumptions compile_correct_pure_run_iff.
